@@ -113,4 +113,14 @@ def mapChildren (g : List Xml → List Xml) : Xml → Xml
 def regroupDoc (x : Xml) : Xml :=
   mapChildren (List.map (mapChildren (List.map (mapChildren (List.map (mapChildren groupRows)))))) x
 
+/-- every second cell of a row stored as a cell covered by a merge (`table:covered-table-cell`; covered cells keep their content
+and repeat count) -/
+def coverCells : List Xml → List Xml
+  | a :: .node _ attrs text children tail :: rest => a :: .node "table:covered-table-cell" attrs text children tail :: coverCells rest
+  | cells => cells
+
+/-- every row of every sheet of an encoded document with covered cells -/
+def coverDoc (x : Xml) : Xml :=
+  mapChildren (List.map (mapChildren (List.map (mapChildren (List.map (mapChildren (List.map (mapChildren coverCells)))))))) x
+
 end Cutplace.Spec
